@@ -176,7 +176,18 @@ impl WriteFile {
 
                         // Read into the buffer.
                         let file = std::fs::File::open(file_path)?;
-                        let read_bytes = file.read_at(&mut buf, *file_offset as u64)?;
+                        // A single read may return less than the block before
+                        // the end of the file is reached.
+                        let mut read_bytes = 0;
+                        while read_bytes < buf.len() {
+                            let offset = *file_offset as u64 + read_bytes as u64;
+                            match file.read_at(&mut buf[read_bytes..], offset) {
+                                Ok(0) => break,
+                                Ok(n) => read_bytes += n,
+                                Err(err) if err.kind() == ErrorKind::Interrupted => continue,
+                                Err(err) => Err(err)?,
+                            }
+                        }
 
                         println!(
                             "Sending file {} at position {} with length {}",
